@@ -29,10 +29,11 @@ BOUNDS = {
              'results; 2 processes (= 2 crashes) with 1..2 saves each, crash before any of the <= 13 file-system steps of a '
              'process or none, symbolic written prefix; (b) stub algorithm, 4 checkpoints, interruption after the save of any '
              'checkpoint or kill before any file-system step; (c) TEBD (chi_max 2: real truncation) and two-site DMRG with / '
-             'without mixer and with a chi_list {0: 2, 2: 3, 4: 4} (7 sweeps) on a 6-site TFI chain, every checkpoint, pickle output, '
-             'CONCRETE numerics',
+             'without mixer, with a chi_list {0: 2, 2: 3, 4: 4} (7 sweeps) and with measure_at_algorithm_checkpoints on a 6-site TFI chain, '
+             'TimeDependentCorrelationEvolveBraKet (two TEBD engines, XXZ chain L=6); every checkpoint, pickle output, CONCRETE numerics; '
+             'compared: every state, number, array and measurement series of the results',
     'thorough': '(a) 3 processes with 1..2 saves; (b) 5 checkpoints; (c) additionally two-site TDVP, ExpMPOEvolution, single-site '
-                'DMRG with mixer',
+                'DMRG with mixer / with measure_at_algorithm_checkpoints, SpectralSimulationEvolveBraKet',
 }
 OUTSIDE = ('real os.rename atomicity / fsync ordering / power-loss semantics of the kernel (the model: a completed close or rename is '
            'durable and atomic); VUMPS and the remaining engine classes; HDF5 output in (c); in (c) the numerics are plain execution: '
@@ -393,10 +394,19 @@ def bookkeeping_case(ctx, n_total, ext='pkl'):
 
 
 # ======================================================================================== (c) real engines
-def _engine_options(engine, fn, mixer, chi_list=None):
+def _engine_options(engine, fn, mixer, chi_list=None, variant=None):
     base = dict(model_class='TFIChain', model_params=dict(L=6, J=1., g=1.2, bc_MPS='finite', conserve=None),
                 initial_state_params=dict(method='lat_product_state', product_state=[['up'], ['down']]),
                 output_filename=fn, save_every_x_seconds=0., save_psi=True)
+    if variant == 'measure_at_checkpoints':
+        # measurements at every algorithm checkpoint: a resumed run must neither repeat nor skip one
+        base['measure_at_algorithm_checkpoints'] = True
+    if variant in ('TimeDependentCorrelationEvolveBraKet', 'SpectralSimulationEvolveBraKet'):
+        # two engines (bra and ket are both evolved): C(t) = <psi| e^{iHt} Sm_j e^{-iHt} Sp_3 |psi>
+        base.update(model_class='XXZChain', model_params=dict(L=6, Jz=1., bc_MPS='finite'),
+                    algorithm_class=engine, final_time=0.4, operator_t0=dict(opname='Sp', mps_idx=3), operator_t='Sm',
+                    algorithm_params=dict(dt=0.05, N_steps=2, order=2, trunc_params=dict(chi_max=8, svd_min=1.e-10)))
+        return variant, base
     if chi_list is not None:
         # bond dimension raised in steps during the run (keys = sweep numbers); json turns the keys into strings
         cl = {int(k): int(v) for k, v in chi_list.items()}
@@ -419,13 +429,13 @@ def _engine_options(engine, fn, mixer, chi_list=None):
 _REF = {}
 
 
-def _reference(engine, mixer, chi_list=None):
+def _reference(engine, mixer, chi_list=None, variant=None):
     """uninterrupted run (cached per process: deterministic)"""
-    key = (engine, mixer, repr(sorted((chi_list or {}).items())))
+    key = (engine, mixer, repr(sorted((chi_list or {}).items())), variant)
     if key not in _REF:
         from tenpy.simulations import time_evolution, ground_state_search
         with tempfile.TemporaryDirectory(prefix='verif_c18_') as td:
-            clsname, o = _engine_options(engine, os.path.join(td, 'ref.pkl'), mixer, chi_list)
+            clsname, o = _engine_options(engine, os.path.join(td, 'ref.pkl'), mixer, chi_list, variant)
             cls = getattr(time_evolution, clsname, None) or getattr(ground_state_search, clsname)
             sim = cls(o, setup_logging=False)
             count = [0]
@@ -442,15 +452,15 @@ def _reference(engine, mixer, chi_list=None):
     return _REF[key]
 
 
-def engines_case(ctx, engine, mixer=None, n_checkpoints=4, chi_list=None):
+def engines_case(ctx, engine, mixer=None, n_checkpoints=4, chi_list=None, variant=None):
     from tenpy.simulations import time_evolution, ground_state_search
-    ref, n_cp = _reference(engine, mixer, chi_list)
+    ref, n_cp = _reference(engine, mixer, chi_list, variant)
     ctx.prove(n_cp == n_checkpoints, 'number of checkpoints of the uninterrupted run')
     c = 1 + choice(ctx, 'checkpoint', n_checkpoints)
     ctx.note(f'interrupted_at_checkpoint_{c}')
     with tempfile.TemporaryDirectory(prefix='verif_c18_') as td:
         fn = os.path.join(td, 'run.pkl')
-        clsname, o = _engine_options(engine, fn, mixer, chi_list)
+        clsname, o = _engine_options(engine, fn, mixer, chi_list, variant)
         cls = getattr(time_evolution, clsname, None) or getattr(ground_state_search, clsname)
         try:
             res = _run_sim(cls(o, setup_logging=False), interrupt_at=c)
@@ -466,12 +476,28 @@ def engines_case(ctx, engine, mixer=None, n_checkpoints=4, chi_list=None):
             except Exception as e:  # noqa
                 ctx.fail('the resumed run finishes', f'{type(e).__name__}: {e}'[:200])
                 return
+            if not ctx.prove(isinstance(res, dict), 'resume_run() returns the results (as documented for Simulation.resume_run)'):
+                from tenpy.tools import hdf5_io
+                res = hdf5_io.load(fn)  # compare what the finished run saved
         ctx.prove(sorted(os.listdir(td)) == ['run.pkl'], 'only the output file remains after a finished run')
-    # ---- compare with the uninterrupted run
-    ov = abs(ref['psi'].overlap(res['psi']))
-    ctx.prove(abs(ov - 1.) <= 1.e-8, 'final state: overlap with the uninterrupted run is 1')
-    if 'energy' in ref:
-        ctx.prove(abs(ref['energy'] - res['energy']) <= 1.e-8, 'final energy equals the uninterrupted run')
+    # ---- compare with the uninterrupted run: every state, every number / array, every measurement series of the results
+    from tenpy.networks.mps import MPS
+    ctx.prove(sorted(k for k in ref if k != 'resume_data') == sorted(k for k in res if k != 'resume_data'), 'same keys in the results')
+    for key in sorted(ref):
+        a, b = ref[key], res.get(key)
+        if isinstance(a, MPS):
+            what = 'final state' if key == 'psi' else f'state {key!r} (second engine)'
+            if not isinstance(b, MPS):
+                ctx.fail(f'{what}: overlap with the uninterrupted run is 1', 'missing in the resumed results')
+                continue
+            ov = a.overlap(b) / (a.norm * b.norm)
+            ctx.prove(abs(abs(ov) - 1.) <= 1.e-8, f'{what}: overlap with the uninterrupted run is 1')
+        elif key == 'energy':
+            ctx.prove(abs(a - b) <= 1.e-8, 'final energy equals the uninterrupted run')
+        elif isinstance(a, (np.ndarray, float, complex, np.number)) and not isinstance(a, bool):
+            a, b = np.asarray(a), np.asarray(b)
+            if a.dtype.kind in 'fciu':
+                ctx.prove(a.shape == b.shape and bool(np.all(np.abs(a - b) <= 1.e-8)), f'results[{key!r}] equals the uninterrupted run')
     mr, mm = ref['measurements'], res['measurements']
     ctx.prove(sorted(mr) == sorted(mm), 'same measurement keys')
     ctx.prove(list(mm['measurement_index']) == list(range(len(mr['measurement_index']))), 'no measurement lost or duplicated')
@@ -575,6 +601,14 @@ def CASES(tier, seed):
     for engine, mixer in engines:
         nm = f'engines[{engine}' + ('' if mixer is None else f',mixer={mixer}') + ']'
         cases.append(dict(name=nm, fn='engines_case', params=dict(engine=engine, mixer=mixer), opts=dict(oc)))
+    # measurements at every algorithm checkpoint (ground-state searches): none repeated or skipped by a resume
+    for engine in ['TwoSiteDMRGEngine'] + (['SingleSiteDMRGEngine'] if thorough else []):
+        cases.append(dict(name=f'engines[{engine},mixer=False,measure_at_algorithm_checkpoints]', fn='engines_case',
+                          params=dict(engine=engine, mixer=False, variant='measure_at_checkpoints', n_checkpoints=4), opts=dict(oc)))
+    # simulation classes with two engines (bra and ket evolved)
+    for simcls in ['TimeDependentCorrelationEvolveBraKet'] + (['SpectralSimulationEvolveBraKet'] if thorough else []):
+        cases.append(dict(name=f'engines[{simcls},TEBDEngine]', fn='engines_case',
+                          params=dict(engine='TEBDEngine', variant=simcls, n_checkpoints=4), opts=dict(oc)))
     # chi_list with several thresholds inside the run: chi_max has to be restored from the last threshold passed
     cases.append(dict(name='engines[TwoSiteDMRGEngine,mixer=False,chi_list={0:2,2:3,4:4}]', fn='engines_case',
                       params=dict(engine='TwoSiteDMRGEngine', mixer=False, chi_list={'0': 2, '2': 3, '4': 4}, n_checkpoints=7), opts=dict(oc)))
